@@ -179,12 +179,12 @@ theorem sig_shape (U : Universe) (m : Nat) : ∀ fuel1, SH U m fuel1
 
 /-! ## Closed stores -/
 
-def Grows (S S' : PStore) : Prop := ∀ k, (sgGet S.blobs k).isSome = true → (sgGet S'.blobs k).isSome = true
+def BlobGrows (S S' : PStore) : Prop := ∀ k, (sgGet S.blobs k).isSome = true → (sgGet S'.blobs k).isSome = true
 
-theorem Grows.refl (S : PStore) : Grows S S := fun _ h => h
-theorem Grows.trans {A B C : PStore} (h1 : Grows A B) (h2 : Grows B C) : Grows A C := fun k h => h2 k (h1 k h)
+theorem BlobGrows.refl (S : PStore) : BlobGrows S S := fun _ h => h
+theorem BlobGrows.trans {A B C : PStore} (h1 : BlobGrows A B) (h2 : BlobGrows B C) : BlobGrows A C := fun k h => h2 k (h1 k h)
 
-theorem grows_storeBlob (S : PStore) (k : Sg) (v : RVal) : Grows S (S.storeBlob k v) := by
+theorem grows_storeBlob (S : PStore) (k : Sg) (v : RVal) : BlobGrows S (S.storeBlob k v) := by
   intro k' h
   unfold PStore.storeBlob
   by_cases hn : S.noop = true
@@ -242,7 +242,7 @@ def CovFn (U : Universe) (m : Nat) (W : World) (paths : List (String × Sg)) (fu
   ∀ (fn : Fn) (ctx : ArgCtx) (env : Env) (refs : Refs) (stack : List String) (fis : FIS) (r : Refs) (st : XSt),
     U.fns fn → analyse m W fuel refs stack fn ctx = .ok (fis, r) → FIS.pathsOKL paths fis.subs →
     st.store.noop = false → Closed U m st.store →
-    Closed U m (runFn W paths fuel st fn env).2.store ∧ Grows st.store (runFn W paths fuel st fn env).2.store ∧
+    Closed U m (runFn W paths fuel st fn env).2.store ∧ BlobGrows st.store (runFn W paths fuel st fn env).2.store ∧
     (∀ v, (runFn W paths fuel st fn env).1 = .ok v → CoveredL (runFn W paths fuel st fn env).2.store.blobs fis.subs)
 
 theorem cov_keep (U : Universe) {m : Nat} {W : World} {paths : List (String × Sg)} {fuel : Nat}
@@ -252,7 +252,7 @@ theorem cov_keep (U : Universe) {m : Nat} {W : World} {paths : List (String × S
     (hkey : aget paths path = some fis.retSig) (hsubs : FIS.pathsOKL paths fis.subs)
     (hn : xst.store.noop = false) (hC : Closed U m xst.store) :
     Closed U m (keepExec paths (runFn W paths fuel) xst path g env').2.store ∧
-    Grows xst.store (keepExec paths (runFn W paths fuel) xst path g env').2.store ∧
+    BlobGrows xst.store (keepExec paths (runFn W paths fuel) xst path g env').2.store ∧
     (∀ v, (keepExec paths (runFn W paths fuel) xst path g env').1 = .ok v →
       (sgGet (keepExec paths (runFn W paths fuel) xst path g env').2.store.blobs fis.retSig).isSome = true ∧
       CoveredL (keepExec paths (runFn W paths fuel) xst path g env').2.store.blobs fis.subs) := by
@@ -261,7 +261,7 @@ theorem cov_keep (U : Universe) {m : Nat} {W : World} {paths : List (String × S
   cases hb : sgGet xst.store.blobs fis.retSig with
   | some v =>
     simp only
-    refine ⟨hC, Grows.refl _, fun _ _ => ⟨by simp [hb], ?_⟩⟩
+    refine ⟨hC, BlobGrows.refl _, fun _ _ => ⟨by simp [hb], ?_⟩⟩
     exact hC fis.retSig (by simp [hb]) W g ctx fuel refs stack fis rf hW hU ha rfl
   | none =>
     simp only
@@ -276,7 +276,7 @@ theorem cov_keep (U : Universe) {m : Nat} {W : World} {paths : List (String × S
         simp only at h1 h2 h3 hno ⊢
         have hcov := h3 v rfl
         have hn' : st'.store.noop = false := by rw [hno]; exact hn
-        refine ⟨Closed.storeBlob h1 hW hU ha hcov v, Grows.trans h2 (grows_storeBlob _ _ _), fun _ _ => ⟨?_, ?_⟩⟩
+        refine ⟨Closed.storeBlob h1 hW hU ha hcov v, BlobGrows.trans h2 (grows_storeBlob _ _ _), fun _ _ => ⟨?_, ?_⟩⟩
         · rw [sgGet_storeBlob_self _ _ _ hn']; rfl
         · exact CoveredL.mono (grows_storeBlob _ _ _) _ hcov
 
@@ -295,7 +295,7 @@ theorem cov_call (U : Universe) {m : Nat} {W : World} {paths : List (String × S
     (hsubs : FIS.pathsOKL paths fis.subs) (hn : xst.store.noop = false) (hC : Closed U m xst.store)
     (pos : List RVal) (kw : List (String × RVal)) :
     Closed U m (runCall W paths (runFn W paths fuel) xst f pos kw kp).2.store ∧
-    Grows xst.store (runCall W paths (runFn W paths fuel) xst f pos kw kp).2.store ∧
+    BlobGrows xst.store (runCall W paths (runFn W paths fuel) xst f pos kw kp).2.store ∧
     (∀ v, (runCall W paths (runFn W paths fuel) xst f pos kw kp).1 = .ok v →
       ((kp ≠ none ∨ g.storePath ≠ none) →
         (sgGet (runCall W paths (runFn W paths fuel) xst f pos kw kp).2.store.blobs fis.retSig).isSome = true) ∧
@@ -303,7 +303,7 @@ theorem cov_call (U : Universe) {m : Nat} {W : World} {paths : List (String × S
   have hU := U.find hW hfind
   simp only [runCall, hfind]
   cases hb : bindRun g.params pos kw 0 with
-  | none => exact ⟨hC, Grows.refl _, fun v hv => by cases hv⟩
+  | none => exact ⟨hC, BlobGrows.refl _, fun v hv => by cases hv⟩
   | some env' =>
     simp only
     cases kp with
@@ -331,19 +331,19 @@ theorem cov_items (U : Universe) {m : Nat} {W : World} {paths : List (String × 
       FIS.pathsOKL paths sfin.inters → SeenCov m W paths fuel s.seen →
       xst.store.noop = false → Closed U m xst.store → CoveredL xst.store.blobs s.inters →
       Closed U m (runItems W (some paths) (runFn W paths fuel) fn env xst results its).2.store ∧
-      Grows xst.store (runItems W (some paths) (runFn W paths fuel) fn env xst results its).2.store ∧
+      BlobGrows xst.store (runItems W (some paths) (runFn W paths fuel) fn env xst results its).2.store ∧
       (∀ rs, (runItems W (some paths) (runFn W paths fuel) fn env xst results its).1 = .ok rs →
         CoveredL (runItems W (some paths) (runFn W paths fuel) fn env xst results its).2.store.blobs sfin.inters)
   | [], _, s, sfin, results, xst, hv, _, _, _, hC, hcov => by
     simp only [visitItems, Except.ok.injEq] at hv
     subst hv
-    exact ⟨hC, Grows.refl _, fun _ _ => hcov⟩
+    exact ⟨hC, BlobGrows.refl _, fun _ _ => hcov⟩
   | it :: its, hnl, s, sfin, results, xst, hrest, hok, hseen, hn, hC, hcov => by
     obtain ⟨t, hv, hr⟩ := visitItems_cons_inv hrest
     rw [runItems_cons]
     have hnl' : ∀ x ∈ its, x.noLoad := fun x hx => hnl x (mem_cons_of_mem _ hx)
     have claim : Closed U m (runItemRes W paths (runFn W paths fuel) env xst results it).2.store ∧
-        Grows xst.store (runItemRes W paths (runFn W paths fuel) env xst results it).2.store ∧
+        BlobGrows xst.store (runItemRes W paths (runFn W paths fuel) env xst results it).2.store ∧
         (∀ v, (runItemRes W paths (runFn W paths fuel) env xst results it).1 = .ok v →
           CoveredL (runItemRes W paths (runFn W paths fuel) env xst results it).2.store.blobs t.inters) ∧
         SeenCov m W paths fuel t.seen := by
@@ -354,7 +354,7 @@ theorem cov_items (U : Universe) {m : Nat} {W : World} {paths : List (String × 
           node ∈ sfin.inters → node.retSig = fis.retSig → node.subs = fis.subs →
           node.storePath = (match kp with | some p => some p | none => g.storePath) →
           Closed U m (runCall W paths (runFn W paths fuel) xst f pos kw kp).2.store ∧
-          Grows xst.store (runCall W paths (runFn W paths fuel) xst f pos kw kp).2.store ∧
+          BlobGrows xst.store (runCall W paths (runFn W paths fuel) xst f pos kw kp).2.store ∧
           (∀ v, (runCall W paths (runFn W paths fuel) xst f pos kw kp).1 = .ok v →
             CoveredL (runCall W paths (runFn W paths fuel) xst f pos kw kp).2.store.blobs (s.inters ++ [node])) := by
         intro f g c fis node rf refs0 stack0 kp pos kw hfind ha hin hsig hsubs hsp
@@ -433,7 +433,7 @@ theorem cov_items (U : Universe) {m : Nat} {W : World} {paths : List (String × 
         simp only at c1 c2 c3 hno ⊢
         obtain ⟨i1, i2, i3⟩ := cov_items U hIH hW fn isig stack env its hnl' t sfin (results ++ [v]) xst' hr hok c4
           (by rw [hno]; exact hn) c1 (c3 v rfl)
-        exact ⟨i1, Grows.trans c2 i2, i3⟩
+        exact ⟨i1, BlobGrows.trans c2 i2, i3⟩
 
 /-- **a successful run covers its tree**: the store stays closed and, on success, every kept call of the tree that was
 run has its blob -/
